@@ -115,7 +115,20 @@ def replay_rshift(ns, ob, model):
     return bad, detail
 
 
+def replay_lettermap(ns, ob, model):
+    from Bio.Seq import Seq
+    from contracts.regex_c import IUPAC
+    letter = model["letter"]
+    rx = ns["moclo.regex"].DNARegex(letter)
+    table = IUPAC.get(letter.upper())
+    if table is None:
+        return False, dict(note="model letter %r is not an IUPAC code: the literal maps a non-code letter" % letter)
+    got = "".join(nt for nt in "ACGT" if rx.search(Seq(nt)) is not None)
+    return got != table, dict(call="DNARegex(%r).search(Seq(x)) for x in ACGT" % letter, expected=table, observed=got)
+
+
 REPLAY = {
+    "DNARegex._lettermap": replay_lettermap,
     "SeqMatch.group": replay_group,
     "CircularRecord.__rshift__": replay_rshift,
     "CircularRecord.__lshift__": replay_rshift,
